@@ -1,3 +1,4 @@
 import BlockCiphers.Prelude.Bytes
-import BlockCiphers.Impl.Xtea
+import BlockCiphers.Registry
 import BlockCiphers.Proofs.Xtea
+import BlockCiphers.Thm.C01
